@@ -26,7 +26,7 @@ Record case := {
 (** every probe event of every run (over all oracles of length [k]) that does not exhaust the fuel *)
 Definition all_events (p : prog) (k fuel : nat) : list event :=
   flat_map (fun l => match run (oracle_of l) fuel p with
-                     | (OFuel, _, _, _) => []
+                     | (OStop false, _, _, _) => []
                      | (_, _, _, tr) => tr
                      end) (all_lists k).
 
